@@ -33,6 +33,10 @@ pub enum Ty {
     Tuple(Vec<Ty>),
     Fun(Vec<Ty>, Box<Ty>),
     Counter,
+    /// a user callback without result held as a value (`F: FnOnce()` inside an `Option` cell)
+    Callback,
+    /// a nested subscription (`U: Subscription`)
+    Sub,
     Named(String),
 }
 
@@ -46,6 +50,8 @@ impl Ty {
             Ty::Obs => "Rs.Obs".into(),
             Ty::Unit => "Unit".into(),
             Ty::Counter => "Nat".into(),
+            Ty::Callback => "Rs.Callback".into(),
+            Ty::Sub => "Rs.Sub".into(),
             Ty::Opt(t) => format!("(Option {})", t.lean()),
             Ty::List(t) => format!("(List {})", t.lean()),
             Ty::Tuple(ts) => format!("({})", ts.iter().map(|t| t.lean()).collect::<Vec<_>>().join(" × ")),
@@ -100,6 +106,8 @@ fn type_args(p: &syn::Path) -> Vec<&Type> {
 }
 
 const CELLS: &[&str] = &["MutRc", "MutArc", "Rc", "Arc", "RefCell", "Mutex", "Cell"];
+/// the traits whose impls are translated
+const TRAITS: &[&str] = &["Observer", "Subscription"];
 const PHANTOMS: &[&str] = &["TypeHint", "PhantomData"];
 
 impl Generics {
@@ -166,6 +174,9 @@ impl Generics {
                                         g.map.insert(n.clone(), Ty::Fun(args, Box::new(ret)));
                                     }
                                 }
+                            }
+                            "Subscription" => {
+                                g.map.insert(n.clone(), Ty::Sub);
                             }
                             "Extend" => {
                                 g.map.insert(n.clone(), Ty::List(Box::new(Ty::Val)));
@@ -500,7 +511,8 @@ impl<'a> Fx<'a> {
                 let n = m.method.to_string();
                 let rt = self.tyx(&m.receiver)?;
                 match (n.as_str(), m.args.len()) {
-                    ("clone", 0) | ("as_ref", 0) | ("as_mut", 0) | ("take", 0) | ("borrow", 0) | ("borrow_mut", 0) => Some(rt),
+                    ("clone", 0) | ("as_ref", 0) | ("as_mut", 0) | ("take", 0) | ("borrow", 0) | ("borrow_mut", 0) | ("rc_deref", 0)
+                    | ("rc_deref_mut", 0) => Some(rt),
                     ("unwrap", 0) | ("expect", 1) => match rt {
                         Ty::Opt(t) => Some(*t),
                         _ => None,
@@ -1201,6 +1213,11 @@ impl<'a> Fx<'a> {
             // a local name for a closure field (`let S { binary_op, .. } = &mut *inner; binary_op(a, b)`)
             if p.path.segments.len() == 1 {
                 if let Ok(pl) = self.place(f) {
+                    if self.place_ty(&pl) == Some(Ty::Callback) && c.args.is_empty() {
+                        let r = self.read_place(&pl);
+                        self.out(format!("Rs.emitCall {}.id", r))?;
+                        return Ok("()".into());
+                    }
                     if let Some(Ty::Fun(ps, _)) = self.place_ty(&pl) {
                         let args = c.args.iter().map(|a| self.expr(a)).collect::<Res<Vec<_>>>()?;
                         if ps.len() != args.len() {
@@ -1261,6 +1278,8 @@ impl<'a> Fx<'a> {
             Ok("()".into())
         } else if mname == "is_finished" {
             Ok(format!("({}{}.is_finished {} down)", si.prefix, si.name, cur))
+        } else if mname == "is_closed" {
+            Ok(format!("({}{}.is_closed {} closedOf)", si.prefix, si.name, cur))
         } else {
             Ok(format!("({}{}.{} {} {})", si.prefix, si.name, mname, cur, a.join(" ")))
         }
@@ -1289,6 +1308,21 @@ impl<'a> Fx<'a> {
                 return self.struct_call(si, &name, &m.receiver, &args);
             }
             return bail("the slot observer (RcObserver) is not available in this module");
+        }
+        // a nested subscription
+        if rt == Some(Ty::Sub) {
+            match (name.as_str(), nargs) {
+                ("unsubscribe", 0) => {
+                    let r = self.expr(&m.receiver)?;
+                    self.out(format!("Rs.emitUnsub {}.id", r))?;
+                    return Ok("()".into());
+                }
+                ("is_closed", 0) => {
+                    let r = self.expr(&m.receiver)?;
+                    return Ok(format!("(Rs.isClosed {} closedOf)", r));
+                }
+                _ => {}
+            }
         }
         // `Cell<bool>` / `AtomicBool`
         if rt == Some(Ty::Bool) {
@@ -1552,6 +1586,8 @@ pub fn parse_spec(spec: &str) -> Ty {
         "val" => Ty::Val,
         "bool" => Ty::Bool,
         "obs" => Ty::Obs,
+        "callback" => Ty::Callback,
+        "sub" => Ty::Sub,
         _ if spec.starts_with("named:") => Ty::Named(spec[6..].to_string()),
         _ if spec.starts_with("opt:") => Ty::Opt(Box::new(parse_spec(&spec[4..]))),
         _ => panic!("bad type spec {}", spec),
@@ -1611,8 +1647,8 @@ pub fn translate_observer(items: &[Item], name: &str, ctx: &mut Ctx, hints: &Has
     let impls = impls_of(items, name);
     let obs_impl = impls
         .iter()
-        .find(|im| matches!(&im.trait_, Some(tr) if last_seg(&tr.0) == "Observer"))
-        .ok_or(format!("impl Observer for {} not found", name))?;
+        .find(|im| matches!(&im.trait_, Some(tr) if TRAITS.contains(&last_seg(&tr.0).as_str())))
+        .ok_or(format!("impl Observer / Subscription for {} not found", name))?;
     let tr = &obs_impl.trait_.as_ref().unwrap().0;
     let targs = type_args(tr);
     let mut err_names = vec![];
@@ -1679,7 +1715,7 @@ pub fn translate_observer(items: &[Item], name: &str, ctx: &mut Ctx, hints: &Has
     // collect the functions: Observer methods + inherent methods
     let mut units: Vec<FnUnit> = vec![];
     for im in &impls {
-        let is_obs = matches!(&im.trait_, Some(tr) if last_seg(&tr.0) == "Observer");
+        let is_obs = matches!(&im.trait_, Some(tr) if TRAITS.contains(&last_seg(&tr.0).as_str()));
         if im.trait_.is_some() && !is_obs {
             continue;
         }
@@ -1794,7 +1830,11 @@ pub fn translate_observer(items: &[Item], name: &str, ctx: &mut Ctx, hints: &Has
         } else {
             match fx.pure_block(&u.f.block) {
                 Ok(v) => {
-                    let down = if fname == "is_finished" { " (down : Bool)" } else { "" };
+                    let down = match fname.as_str() {
+                        "is_finished" => " (down : Bool)",
+                        "is_closed" => " (closedOf : Nat → Bool)",
+                        _ => "",
+                    };
                     writeln!(s, "def {}.{} (self_ : {}){}{} : Bool :=\n  {}\n", name, fname, state_ty, ps, down, v).unwrap()
                 }
                 Err(e) => errors.push(format!("{}::{}: {}", name, fname, e)),
@@ -1821,6 +1861,8 @@ struct InitFx<'a> {
     /// locals bound by `let x = self.f;` / `let Self { a, b } = self;` / parameters of `new`
     locals: HashMap<String, String>,
     obs_locals: Vec<String>,
+    /// every other `let x = e;` of actual_subscribe
+    lets: HashMap<String, Expr>,
 }
 
 impl<'a> InitFx<'a> {
@@ -1837,6 +1879,9 @@ impl<'a> InitFx<'a> {
     }
 
     fn expr(&mut self, e: &Expr, want: &Ty) -> Res<String> {
+        if *want == Ty::Sub {
+            return Ok("(Rs.Sub.mk 0)".into()); // the subscription the source hands back
+        }
         match e {
             Expr::Paren(p) => self.expr(&p.expr, want),
             Expr::Reference(r) => self.expr(&r.expr, want),
@@ -1855,6 +1900,11 @@ impl<'a> InitFx<'a> {
                 }
                 if let Some(f) = self.locals.get(&n).cloned() {
                     return self.param(&f, want);
+                }
+                if let Some(e2) = self.lets.remove(&n) {
+                    let r = self.expr(&e2, want);
+                    self.lets.insert(n.clone(), e2);
+                    return r;
                 }
                 bail(format!("local `{}` in an initial state", n))
             }
@@ -2025,7 +2075,7 @@ pub fn translate_init(items: &[Item], op: &str, obs: &str, ctx: &Ctx, hints: &Ha
             _ => None,
         })
         .ok_or("actual_subscribe not found")?;
-    let mut fx = InitFx { op_fields, used: vec![], ctx, items, locals: HashMap::new(), obs_locals: vec![] };
+    let mut fx = InitFx { op_fields, used: vec![], ctx, items, locals: HashMap::new(), obs_locals: vec![], lets: HashMap::new() };
     let _ = (&fx.items, &fx.obs_locals);
     for s in &f.block.stmts {
         if let Stmt::Local(l) = s {
@@ -2039,6 +2089,9 @@ pub fn translate_init(items: &[Item], op: &str, obs: &str, ctx: &Ctx, hints: &Ha
                 }
             }
             if let (Pat::Ident(pi), Some(init)) = (&l.pat, &l.init) {
+                if !matches!(&*init.expr, Expr::Field(_)) && pi.ident != "observer" {
+                    fx.lets.insert(pi.ident.to_string(), (*init.expr).clone());
+                }
                 if let Expr::Field(fe) = &*init.expr {
                     if Fx::is_self(&fe.base) {
                         if let Member::Named(n) = &fe.member {
